@@ -9,14 +9,19 @@ specfun("om_lm", ["m"], "m._ctx.loan_mgr")
 specfun("om_cfg", ["m"], "m._ctx.config")
 specfun("om_shared", ["m"], "same_object(om_lm(m)._ctx.account_balances, om_acc(m)) and same_object(om_lm(m)._ctx.prices, m._ctx.prices) "
                             "and same_object(om_lm(m)._ctx.config, m._ctx.config) and same_object(om_lm(m)._ctx.dispatcher, m._ctx.dispatcher)")
-specfun("om_orders_wf", ["m"], "forall(lambda k=Str: implies(k in m._orders._items, m._orders._items[k]._id == k and order_wf(m._orders._items[k]) "
-                               "and wf_config(om_cfg(m), m._orders._items[k]._pair)))")
+# amounts live on the pair's precision grid (request validation puts them there; fills keep them there -- C08)
+specfun("order_grid", ["m", "o"], "grid(o._amount, cfg_pair_info(om_cfg(m), o._pair).base_precision) "
+                                  "and grid(at(o._balance_updates, ob(o)), cfg_pair_info(om_cfg(m), o._pair).base_precision) "
+                                  "and grid(at(o._balance_updates, oq(o)), cfg_pair_info(om_cfg(m), o._pair).quote_precision) "
+                                  "and grid(at(o._fees, oq(o)), cfg_pair_info(om_cfg(m), o._pair).quote_precision)")
+specfun("om_orders_wf", ["m"], "forall(lambda k=Id: implies(k in m._orders._items, m._orders._items[k]._id == k and order_wf(m._orders._items[k]) "
+                               "and wf_config(om_cfg(m), m._orders._items[k]._pair) and order_grid(m, m._orders._items[k])))")
 # holds are kept only on behalf of open orders, and never negative
-specfun("om_holds_dom", ["m"], "forall(lambda k=Str: implies(k in m._holds_by_order, (k in m._orders._items) and st_open(m._orders._items[k])))")
-specfun("om_holds_nonneg", ["m"], "forall(lambda k=Str, s=Str: implies(k in m._holds_by_order, at(m._holds_by_order[k], s) >= 0)) "
-                                  "and forall(lambda k=Str: implies(k in m._holds_by_order, exists(lambda s=Str: s in m._holds_by_order[k])))")
+specfun("om_holds_dom", ["m"], "forall(lambda k=Id: implies(k in m._holds_by_order, (k in m._orders._items) and st_open(m._orders._items[k])))")
+specfun("om_holds_nonneg", ["m"], "forall(lambda k=Id, s=Str: implies(k in m._holds_by_order, at(m._holds_by_order[k], s) >= 0)) "
+                                  "and forall(lambda k=Id: implies(k in m._holds_by_order, nonempty(m._holds_by_order[k])))")
 # every reservation is covered by the account's holds (consequence of holds == sum of reservations + collateral)
-specfun("om_holds_cover", ["m"], "forall(lambda k=Str, s=Str: implies(k in m._holds_by_order, at(m._holds_by_order[k], s) <= at(om_acc(m).holds, s)))")
+specfun("om_holds_cover", ["m"], "forall(lambda k=Id, s=Str: implies(k in m._holds_by_order, at(m._holds_by_order[k], s) <= at(om_acc(m).holds, s)))")
 specfun("om_ctx_wf", ["m"], "om_shared(m) and fee_wf(m._ctx.fee_strategy) and cfg_all_symbols(om_cfg(m))")
 specfun("om_inv", ["m"], "om_ctx_wf(m) and lm_inv(om_lm(m)) and om_orders_wf(m) and om_holds_dom(m) and om_holds_nonneg(m)")
 OM_INV = [("inv_ctx", "om_ctx_wf(self)"), ("inv_lm_acc", "lm_acc(om_lm(self))"), ("inv_lm_coll_dom", "lm_coll_dom(om_lm(self))"),
@@ -32,8 +37,11 @@ specfun("rounded_bu", ["cfg", "pair", "s", "x"],
 contract(OM + "_round_balance_updates", props=P + ["C04"], types={"balance_updates": "ValueMap"},
          requires=[("pair", "pair.base_symbol != pair.quote_symbol")],
          ensures=[("configured", "cfg_has_pair(om_cfg(self), pair)"),
-                  ("values", "forall(lambda s=Str: at(balance_updates, s) == rounded_bu(om_cfg(self), pair, s, old(at(balance_updates, s))))"),
-                  ("pruned", "forall(lambda s=Str: (s in balance_updates) == (old(s in balance_updates) and rounded_bu(om_cfg(self), pair, s, old(at(balance_updates, s))) != 0))")],
+                  # stated per symbol (base / quote / every other one) so that only two rounded terms exist
+                  ("base", "at(balance_updates, pair.base_symbol) == q_down(old(at(balance_updates, pair.base_symbol)), cfg_pair_info(om_cfg(self), pair).base_precision)"),
+                  ("quote", "at(balance_updates, pair.quote_symbol) == q_he(old(at(balance_updates, pair.quote_symbol)), cfg_pair_info(om_cfg(self), pair).quote_precision)"),
+                  ("others", "forall(lambda s=Str: implies(s != pair.base_symbol and s != pair.quote_symbol, at(balance_updates, s) == old(at(balance_updates, s))))"),
+                  ("pruned", "forall(lambda s=Str: (s in balance_updates) == (old(s in balance_updates) and at(balance_updates, s) != 0))")],
          raises={"Error!": [("missing", "not cfg_has_pair(om_cfg(self), pair)"), ("unchanged", "content_unchanged(balance_updates)")]},
          modifies=["content(balance_updates)"])
 specfun("rounded_fee", ["cfg", "pair", "s", "x"],
@@ -42,12 +50,16 @@ specfun("rounded_fee", ["cfg", "pair", "s", "x"],
 contract(OM + "_round_fees", props=P, types={"fees": "ValueMap"},
          requires=[("pair", "pair.base_symbol != pair.quote_symbol")],
          ensures=[("configured", "cfg_has_pair(om_cfg(self), pair)"),
-                  ("values", "forall(lambda s=Str: at(fees, s) == rounded_fee(om_cfg(self), pair, s, old(at(fees, s))))"),
-                  ("pruned", "forall(lambda s=Str: (s in fees) == (old(s in fees) and rounded_fee(om_cfg(self), pair, s, old(at(fees, s))) != 0))")],
+                  ("base", "at(fees, pair.base_symbol) == q_up(old(at(fees, pair.base_symbol)), cfg_pair_info(om_cfg(self), pair).base_precision)"),
+                  ("quote", "at(fees, pair.quote_symbol) == q_up(old(at(fees, pair.quote_symbol)), cfg_pair_info(om_cfg(self), pair).quote_precision)"),
+                  ("others", "forall(lambda s=Str: implies(s != pair.base_symbol and s != pair.quote_symbol, at(fees, s) == old(at(fees, s))))"),
+                  ("pruned", "forall(lambda s=Str: (s in fees) == (old(s in fees) and at(fees, s) != 0))")],
          raises={"Error!": [("missing", "not cfg_has_pair(om_cfg(self), pair)"), ("unchanged", "content_unchanged(fees)")]},
          modifies=["content(fees)"],
          loops={0: dict(invariant=[
-             ("done", "forall(lambda s=Str: implies(s in SEEN, at(fees, s) == rounded_fee(om_cfg(self), pair, s, old(at(fees, s))) and (s in fees) == old(s in fees)))"),
+             ("done_base", "implies(pair.base_symbol in SEEN, at(fees, pair.base_symbol) == q_up(old(at(fees, pair.base_symbol)), cfg_pair_info(om_cfg(self), pair).base_precision))"),
+             ("done_quote", "implies(pair.quote_symbol in SEEN, at(fees, pair.quote_symbol) == q_up(old(at(fees, pair.quote_symbol)), cfg_pair_info(om_cfg(self), pair).quote_precision))"),
+             ("dom", "forall(lambda s=Str: (s in fees) == old(s in fees))"),
              ("todo", "forall(lambda s=Str: implies(not (s in SEEN), at(fees, s) == old(at(fees, s)) and (s in fees) == old(s in fees)))"),
              ("all", "forall(lambda s=Str: (s in ALL) == (s == pair.base_symbol or s == pair.quote_symbol))")],
              modifies=["content(fees)"])})
@@ -56,7 +68,7 @@ contract(OM + "_round_fees", props=P, types={"fees": "ValueMap"},
 # _update_balances (DESIGN B2): apply a balance update for an order and release its hold accordingly
 # ---------------------------------------------------------------------------------------------------------------------
 specfun("oh_of", ["m", "o"], "m._holds_by_order[o._id]")
-specfun("has_hold", ["m", "o"], "(o._id in m._holds_by_order) and exists(lambda s=Str: s in m._holds_by_order[o._id])")
+specfun("has_hold", ["m", "o"], "(o._id in m._holds_by_order) and nonempty(m._holds_by_order[o._id])")
 # how much of the order's hold is released by an update bu while the order stays open: min(spent, remaining)
 specfun("rel", ["m", "o", "bu", "s"],
         "ite(at(bu, s) < 0 and (s in oh_of(m, o)), (at(bu, s) if at(bu, s) >= -at(oh_of(m, o), s) else -at(oh_of(m, o), s)), 0)")
@@ -70,20 +82,21 @@ contract(OM + "_update_balances", props=P, types={"balance_updates": "Dict[Str,R
                   ("borrowed", "forall(lambda s=Str: at(om_acc(self).borrowed, s) == old(at(om_acc(self).borrowed, s)))"),
                   # no hold entry / empty entry: holds untouched, registry untouched
                   ("no_hold", "implies(not old(has_hold(self, order)), forall(lambda s=Str: at(om_acc(self).holds, s) == old(at(om_acc(self).holds, s))) "
-                              "and forall(lambda k=Str: (k in self._holds_by_order) == old(k in self._holds_by_order)))"),
+                              "and forall(lambda k=Id: (k in self._holds_by_order) == old(k in self._holds_by_order)))"),
                   # open order: the reservation shrinks by min(spent, remaining), the same map object is kept
                   ("open", "implies(old(has_hold(self, order)) and st_open(order), "
                            "forall(lambda s=Str: at(om_acc(self).holds, s) == old(at(om_acc(self).holds, s)) + old(rel(self, order, balance_updates, s))) "
                            "and (order._id in self._holds_by_order) and same_object(oh_of(self, order), old(oh_of(self, order))) "
                            "and forall(lambda s=Str: at(oh_of(self, order), s) == old(at(oh_of(self, order), s)) + old(rel(self, order, balance_updates, s))) "
                            "and forall(lambda s=Str: at(oh_of(self, order), s) >= 0) "
-                           "and forall(lambda k=Str: (k in self._holds_by_order) == old(k in self._holds_by_order)))"),
+                           "and forall(lambda s=Str: implies(old(s in oh_of(self, order)), s in oh_of(self, order))) "
+                           "and forall(lambda k=Id: (k in self._holds_by_order) == old(k in self._holds_by_order)))"),
                   # closed order: everything it still held is released and the entry is gone
                   ("closed", "implies(old(has_hold(self, order)) and not st_open(order), "
                              "forall(lambda s=Str: at(om_acc(self).holds, s) == old(at(om_acc(self).holds, s)) - old(at(oh_of(self, order), s))) "
                              "and not (order._id in self._holds_by_order) "
-                             "and forall(lambda k=Str: implies(k != order._id, (k in self._holds_by_order) == old(k in self._holds_by_order))))"),
-                  ("others", "forall(lambda k=Str: implies(k != order._id and (k in self._holds_by_order), same_object(self._holds_by_order[k], old(self._holds_by_order[k]))))")],
+                             "and forall(lambda k=Id: implies(k != order._id, (k in self._holds_by_order) == old(k in self._holds_by_order))))"),
+                  ("others", "forall(lambda k=Id: implies(k != order._id and (k in self._holds_by_order), same_object(self._holds_by_order[k], old(self._holds_by_order[k]))))")],
          raises={"Error": [("account", "unchanged(om_acc(self))"),
                            ("holds", "content_unchanged(self._holds_by_order) and implies(order._id in self._holds_by_order, content_unchanged(oh_of(self, order)))"),
                            # releasing the hold of a closed order (no balance change) is never refused, provided the
@@ -156,12 +169,12 @@ specfun("avail", ["a", "s"], "at(a.balances, s) - at(a.holds, s)")
 LM_MOD = ["content(self._ctx.loan_mgr._loans._items)", "content(self._ctx.loan_mgr._loans._open_items)", "self._ctx.loan_mgr._loans.pos",
           "content(self._ctx.loan_mgr._collateral_by_loan)"]
 specfun("old_loans_kept", ["m"],
-        "forall(lambda k=Str: implies(old(k in om_lm(m)._loans._items), (k in om_lm(m)._loans._items) "
+        "forall(lambda k=Id: implies(old(k in om_lm(m)._loans._items), (k in om_lm(m)._loans._items) "
         "and same_object(om_lm(m)._loans._items[k], old(om_lm(m)._loans._items[k])) "
         "and om_lm(m)._loans._items[k]._is_open == old(om_lm(m)._loans._items[k]._is_open)))")
 BORROW_LM = [("lm_acc", "lm_acc(om_lm(self))"), ("lm_coll_dom", "lm_coll_dom(om_lm(self))"), ("lm_coll_nonneg", "lm_coll_nonneg(om_lm(self))"),
              ("lm_loans_wf", "lm_loans_wf(om_lm(self))")]
-contract(OM + "_borrow", props=["C07", "C10", "C02", "C01"], types={"required_balances": "ValueMap"},
+contract(OM + "_borrow", props=["C07", "C10", "C02", "C01"], types={"required_balances": "ValueMap", "loan_ids": "List[Id]"},
          requires=[("ctx", "om_ctx_wf(self)"), ("lm", "lm_inv(om_lm(self))"), ("clock", "clock_ok(om_lm(self))"),
                    ("collateral_free", "om_lm(self)._lending_strategy.no_collateral"),
                    ("required", "forall(lambda s=Str: at(required_balances, s) >= 0)"),
@@ -179,7 +192,7 @@ contract(OM + "_borrow", props=["C07", "C10", "C02", "C01"], types={"required_ba
                                    ("account", "forall(lambda s=Str: at(om_acc(self).balances, s) == old(at(om_acc(self).balances, s)) "
                                                "and at(om_acc(self).holds, s) == old(at(om_acc(self).holds, s)) "
                                                "and at(om_acc(self).borrowed, s) == old(at(om_acc(self).borrowed, s)))"),
-                                   ("open_loans", "forall(lambda k=Str: implies((k in om_lm(self)._loans._items) and om_lm(self)._loans._items[k]._is_open, "
+                                   ("open_loans", "forall(lambda k=Id: implies((k in om_lm(self)._loans._items) and om_lm(self)._loans._items[k]._is_open, "
                                                   "old(k in om_lm(self)._loans._items) and old(om_lm(self)._loans._items[k]._is_open)))"),
                                    ("existing_loans", "old_loans_kept(self)"),
                                    ("order", "content_unchanged(order._loan_ids)")]},
@@ -193,13 +206,13 @@ contract(OM + "_borrow", props=["C07", "C10", "C02", "C01"], types={"required_ba
 # ---------------------------------------------------------------------------------------------------------------------
 contract(OM + "_repay_loans", props=["C11", "C01", "C02"],
          requires=[("ctx", "om_ctx_wf(self)"), ("lm", "lm_inv(om_lm(self))"), ("clock", "clock_ok(om_lm(self))"),
-                   ("clock2", "forall(lambda k=Str: implies(k in om_lm(self)._loans._items, now_of(om_lm(self)) >= om_lm(self)._loans._items[k]._created_at))")],
+                   ("clock2", "forall(lambda k=Id: implies(k in om_lm(self)._loans._items, now_of(om_lm(self)) >= om_lm(self)._loans._items[k]._created_at))")],
          ensures=BORROW_LM + [
                   # only interest leaves the account: totals change exactly by what the ledger records (C01)
                   ("ledger", "forall(lambda s=Str: (at(om_acc(self).balances, s) - at(om_acc(self).borrowed, s)) - old(at(om_acc(self).balances, s) - at(om_acc(self).borrowed, s)) "
                              "== GHOST.ledger[s] - old(GHOST.ledger[s]))"),
                   ("holds_shrink", "forall(lambda s=Str: at(om_acc(self).holds, s) <= old(at(om_acc(self).holds, s)))"),
-                  ("loans_only_close", "forall(lambda k=Str: ((k in om_lm(self)._loans._items) == old(k in om_lm(self)._loans._items)) "
+                  ("loans_only_close", "forall(lambda k=Id: ((k in om_lm(self)._loans._items) == old(k in om_lm(self)._loans._items)) "
                                        "and implies(k in om_lm(self)._loans._items, same_object(om_lm(self)._loans._items[k], old(om_lm(self)._loans._items[k])) "
                                        "and implies(om_lm(self)._loans._items[k]._is_open, old(om_lm(self)._loans._items[k]._is_open))))")],
          modifies=ACC3 + ["content(self._ctx.loan_mgr._collateral_by_loan)", "content(order._loan_ids)", "GHOST.ledger"],
@@ -213,13 +226,13 @@ specfun("holds_total_eq", ["m"], "TRUE")
 contract(OM + "_order_closed", props=P + ["C11"],
          requires=[("ctx", "om_ctx_wf(self)"), ("lm", "lm_inv(om_lm(self))"), ("closed", "not st_open(order)"), ("order", "order_wf(order)"),
                    ("holds", "implies(order._id in self._holds_by_order, forall(lambda s=Str: at(oh_of(self, order), s) >= 0 and at(oh_of(self, order), s) <= at(om_acc(self).holds, s)) "
-                             "and exists(lambda s=Str: s in oh_of(self, order)))"),
+                             "and nonempty(oh_of(self, order)))"),
                    ("clock", "implies(order._auto_repay and filled(order) != 0, clock_ok(om_lm(self)) and "
-                             "forall(lambda k=Str: implies(k in om_lm(self)._loans._items, now_of(om_lm(self)) >= om_lm(self)._loans._items[k]._created_at)))")],
+                             "forall(lambda k=Id: implies(k in om_lm(self)._loans._items, now_of(om_lm(self)) >= om_lm(self)._loans._items[k]._created_at)))")],
          ensures=BORROW_LM + [
                   # released in full, entry removed (C06)
                   ("released", "not (order._id in self._holds_by_order) "
-                               "and forall(lambda k=Str: implies(k != order._id, ((k in self._holds_by_order) == old(k in self._holds_by_order)) "
+                               "and forall(lambda k=Id: implies(k != order._id, ((k in self._holds_by_order) == old(k in self._holds_by_order)) "
                                "and implies(k in self._holds_by_order, same_object(self._holds_by_order[k], old(self._holds_by_order[k])))))"),
                   ("holds", "forall(lambda s=Str: at(om_acc(self).holds, s) <= old(at(om_acc(self).holds, s)) - (old(at(oh_of(self, order), s)) if old(order._id in self._holds_by_order) else 0))"),
                   ("ledger", "forall(lambda s=Str: (at(om_acc(self).balances, s) - at(om_acc(self).borrowed, s)) - old(at(om_acc(self).balances, s) - at(om_acc(self).borrowed, s)) "
@@ -228,3 +241,51 @@ contract(OM + "_order_closed", props=P + ["C11"],
          raises={},
          modifies=ACC3 + ["content(self._holds_by_order)", "content(self._holds_by_order[order._id])",
                           "content(self._ctx.loan_mgr._collateral_by_loan)", "content(order._loan_ids)", "GHOST.ledger"])
+
+# ---------------------------------------------------------------------------------------------------------------------
+# _process_order (DESIGN B3): one order against one bar
+# ---------------------------------------------------------------------------------------------------------------------
+specfun("total_of", ["a", "s"], "at(a.balances, s) - at(a.borrowed, s)")
+specfun("in_orders", ["m", "o"], "(o._id in m._orders._items) and same_object(m._orders._items[o._id], o)")
+specfun("fok", ["o"], "typeis(o, 'MarketOrder') or typeis(o, 'StopOrder')")
+PO_REQ = [("ctx", "om_ctx_wf(self)"), ("lm", "lm_inv(om_lm(self))"), ("collateral_free", "om_lm(self)._lending_strategy.no_collateral"),
+          ("orders", "om_orders_wf(self)"), ("holds_dom", "om_holds_dom(self)"), ("holds_nonneg", "om_holds_nonneg(self)"),
+          ("holds_cover", "om_holds_cover(self)"),
+          ("order", "in_orders(self, order) and st_open(order)"), ("pair", "order._pair == bar_event.bar.pair"),
+          ("bar", "bar_wf(bar_event.bar)"), ("liq", "liq_wf(liquidity_strategy)"),
+          # the dispatcher clock equals the bar event's time while it is handled (C12), and no loan is younger
+          ("clock", "clock_ok(om_lm(self)) and now_of(om_lm(self)) == bar_event.when "
+                    "and forall(lambda k=Id: implies(k in om_lm(self)._loans._items, now_of(om_lm(self)) >= om_lm(self)._loans._items[k]._created_at))")]
+PO_INV = [("order_wf", "order_wf(order)"),
+          ("order_grid_base", "grid(at(order._balance_updates, ob(order)), bp_of(self, order))"),
+          ("order_grid_quote", "grid(at(order._balance_updates, oq(order)), qp_of(self, order))"),
+          ("order_grid_fees", "grid(at(order._fees, oq(order)), qp_of(self, order))"),
+          ("inv_ctx", "om_ctx_wf(self)"), ("inv_lm_acc", "lm_acc(om_lm(self))"), ("inv_lm_coll_dom", "lm_coll_dom(om_lm(self))"),
+          ("inv_lm_coll_nonneg", "lm_coll_nonneg(om_lm(self))"), ("inv_lm_loans_wf", "lm_loans_wf(om_lm(self))"),
+          ("inv_orders_wf", "om_orders_wf(self)"), ("inv_holds_dom", "om_holds_dom(self)"), ("inv_holds_nonneg", "om_holds_nonneg(self)")]
+contract(OM + "_process_order", props=P + ["C04", "C11"],
+         types={"liquidity_strategy": "LiquidityStrategy"},
+         requires=PO_REQ,
+         hints=[("pending_on_grid", "grid(pending(order), bp_of(self, order)) and grid(-pending(order), bp_of(self, order))")],
+         ensures=[("others_untouched", "forall(lambda k=Id: implies(k != order._id and (k in self._orders._items), unchanged(self._orders._items[k]) "
+                                       "and content_unchanged(self._orders._items[k]._balance_updates, self._orders._items[k]._fees)))")] + PO_INV + [
+             # C01: totals move only by what is recorded on orders / paid as interest
+             ("ledger", "forall(lambda s=Str: total_of(om_acc(self), s) - old(total_of(om_acc(self), s)) == GHOST.ledger[s] - old(GHOST.ledger[s]))"),
+             # C05: monotone state machine; fill-or-kill orders never stay open after their first bar
+             ("monotone", "filled(order) >= old(filled(order)) and filled(order) <= order._amount"),
+             ("fill_or_kill", "implies(fok(order), not st_open(order))"),
+             ("fok_no_partial", "implies(fok(order), filled(order) == old(filled(order)) or filled(order) == order._amount)"),
+             ("closed_iff", "implies(not st_open(order), filled(order) >= order._amount or order._state == OrderState.CANCELED)"),
+             # C06: a closed order holds nothing
+             ("released", "implies(not st_open(order), not (order._id in self._holds_by_order))"),
+             # C08: liquidity is taken exactly for the base amount applied to the account
+             ("liquidity", "liquidity_strategy.used - old(liquidity_strategy.used) == filled(order) - old(filled(order)) and liq_wf(liquidity_strategy)"),
+         ],
+         # An update rule may fail with an error other than NotEnoughBalance (e.g. NoPrice from the margin rule); the fill is
+         # then abandoned atomically: nothing of it has happened.
+         raises={"Error": [("atomic", "unchanged(om_acc(self)) and order._state == old(order._state) and content_unchanged(order._balance_updates, order._fees, order._fills) "
+                                      "and liquidity_strategy.used == old(liquidity_strategy.used) "
+                                      "and forall(lambda s=Str: GHOST.ledger[s] == old(GHOST.ledger[s]))")]},
+         modifies=ACC3 + ["content(self._holds_by_order)", "content(self._holds_by_order[order._id])", "all(order)", "content(order._balance_updates)",
+                          "content(order._fees)", "content(order._fills)", "content(order._loan_ids)", "all(liquidity_strategy)",
+                          "content(self._ctx.loan_mgr._collateral_by_loan)", "content(self._order_updates._obj._queue)", "GHOST.ledger"])
